@@ -11,11 +11,20 @@
    and `c17_order_is_edges_ordered` derives it from `arborescence`.
 
    All theorems are unbounded: any tree skeleton, any number of peaks, any score
-   table (NaN = None), any min_line_scores / min_instance_peaks, any oracle
-   answers meeting the contract.  `fixed_F3` selects the code as it is (false)
-   or the repaired matching of proposed_fixes/C08_F3.diff (true); theorems
-   without that parameter in their hypotheses hold for both. *)
-From Coq Require Import List Arith Bool ZArith QArith Permutation.
+   table (NaN = None), any rational min_line_scores, any oracle answers meeting
+   the contract.  min_instance_peaks: any integer, or any float given by the exact
+   value q of its binary64 (`MipFloat q`); the threshold is then
+   floor (b64_round (q * n_nodes)) — the code's `int(f * n_nodes)` with the product
+   rounded once to binary64 (`threshold_def`, `ex_threshold_06_5`: 0.6 with 5 nodes
+   gives 3, the exact product would give 2).  Outside: NaN/inf thresholds and
+   products that overflow binary64.
+   `fixed_F3 = true` is the CURRENT tree (/repo since fix f3ef4e3: NaN entries get
+   the finite cost `big` = 1e6, matches landing on them are discarded) — the
+   variant the harness evaluates; `fixed_F3 = false` is the PINNED tree before that
+   fix (NaN -> +inf, F3).  Theorems about `false` document the historic defect and
+   keep the check able to report a regression; theorems without that parameter in
+   their hypotheses hold for both. *)
+From Coq Require Import List Arith Bool ZArith QArith Qround Permutation.
 Import ListNotations.
 From SV Require Import C17.Toposort C17.Lemmas C08.Grouping C08.Lemmas.
 Open Scope nat_scope.
@@ -104,6 +113,18 @@ Lemma touched_def : forall done p,
 Proof. reflexivity. Qed.
 Print Assumptions touched_def.
 
+(* the size threshold: an int is used as is; a float q (exact value of the double)
+   becomes the truncation of the binary64 product q * n_nodes *)
+Lemma threshold_def : forall m n_nodes,
+  threshold m n_nodes =
+  match m with
+  | MipInt z => if (0 <? z)%Z then Some z else None
+  | MipFloat q => if Qle_bool q 0 then None
+                  else Some (Qfloor (b64_round (q * inject_Z (Z.of_nat n_nodes))))
+  end.
+Proof. reflexivity. Qed.
+Print Assumptions threshold_def.
+
 (* a component survives the size filter *)
 Lemma survives_def : forall ecs m n_nodes p,
   survives ecs m n_nodes p =
@@ -126,7 +147,8 @@ Proof. exact toposort_edges_ordered. Qed.
 Print Assumptions c17_order_is_edges_ordered.
 
 (* tree skeleton + C17 order + oracle contract  ==>  the hypotheses of the
-   grouping theorems, for the code as it is and for the repaired code *)
+   grouping theorems, for the current tree (fixed_F3 = true) and for the pinned
+   tree before fix f3ef4e3 (false) *)
 Theorem c08_pipeline_meets_hypotheses :
   forall P lsa fixed_F3 big n_nodes edges r m mls (peaks : list (nat * P)) scores ms,
   lsa_contract lsa -> arborescence edges r -> edges_in_range n_nodes edges ->
@@ -218,6 +240,15 @@ Theorem c08_instance_scores :
 Proof. exact @c08_scores_proof. Qed.
 Print Assumptions c08_instance_scores.
 
+(* no accepted connection is listed — hence summed — twice: the list the sums of
+   c08_instance_scores range over is duplicate-free (distinct edge types by the C17
+   order, one-to-one matches per edge) *)
+Theorem c08_connections_counted_once :
+  forall P n_nodes edges sorted mls (peaks : list (nat * P)) ms ecs,
+  group_hyps n_nodes edges sorted mls peaks ms ecs -> NoDup (flatten ecs).
+Proof. exact @group_conns_once. Qed.
+Print Assumptions c08_connections_counted_once.
+
 (* --- (e) matches below min_line_scores or NaN are not used ---------------- *)
 
 Theorem c08_only_accepted_matches_used : forall edges sorted mls ms ecs e c,
@@ -237,10 +268,12 @@ Print Assumptions c08_every_accepted_match_used.
 
 (* --- (f) per-edge optimality (the oracle contract, carried to the matches) - *)
 
-(* code as it is: the matches of edge k are a one-to-one assignment of size
-   min(n_src, n_dst) whose total cost (cost = - line score) is finite and minimal
-   among all such assignments, and every match carries the finite line score of
-   its candidate *)
+(* PINNED tree (before fix f3ef4e3; no code in /repo implements `false` any more,
+   except that on an edge WITHOUT NaN scores the current tree computes exactly
+   this, see c08_fixed_is_unfixed_without_nan): the matches of edge k are a
+   one-to-one assignment of size min(n_src, n_dst) whose total cost (cost = - line
+   score) is finite and minimal among all such assignments, and every match
+   carries the finite line score of its candidate *)
 Theorem c08_matches_optimal : forall lsa big k cands ms,
   lsa_contract lsa -> match_edge lsa false big k cands = Ok ms ->
   let M := edge_matrix false big k cands in
@@ -260,7 +293,7 @@ Theorem c08_matches_one_to_one : forall lsa fixed_F3 big n cands ms,
 Proof. exact match_sample_one_to_one. Qed.
 Print Assumptions c08_matches_one_to_one.
 
-(* repaired code: no match sits on a NaN entry *)
+(* current tree: no match sits on a NaN entry *)
 Theorem c08_fixed_matches_avoid_nan : forall lsa big k cands ms,
   lsa_contract lsa -> match_edge lsa true big k cands = Ok ms ->
   forall mt, In mt ms ->
@@ -268,6 +301,161 @@ Theorem c08_fixed_matches_avoid_nan : forall lsa big k cands ms,
                (edge_cands k cands) <> Some None.
 Proof. exact match_edge_fixed_no_nan. Qed.
 Print Assumptions c08_fixed_matches_avoid_nan.
+
+(* --- (f) for the CURRENT tree (fixed_F3 = true; review finding 2) ---------- *)
+
+(* restated predicates (each holds by reflexivity) *)
+(* the score-table entry behind cell p = (i, j) of edge k's cost matrix:
+   None = no candidate, Some None = NaN, Some (Some x) = finite line score x *)
+Lemma sc_at_def : forall k cands p,
+  sc_at k cands p =
+  find_score (nth (fst p) (edge_srcs k cands) 0) (nth (snd p) (edge_dsts k cands) 0) (edge_cands k cands).
+Proof. reflexivity. Qed.
+Print Assumptions sc_at_def.
+
+Lemma complete_cands_def : forall k cands,
+  complete_cands k cands =
+  (forall i j, i < length (edge_srcs k cands) -> j < length (edge_dsts k cands) -> sc_at k cands (i, j) <> None).
+Proof. reflexivity. Qed.
+Print Assumptions complete_cands_def.
+
+Lemma partial_asg_def : forall n m b,
+  partial_asg n m b =
+  (NoDup (map fst b) /\ NoDup (map snd b) /\ forall p, In p b -> fst p < n /\ snd p < m).
+Proof. reflexivity. Qed.
+Print Assumptions partial_asg_def.
+
+Lemma nanfree_def : forall k cands b,
+  nanfree k cands b = (forall p, In p b -> exists x, sc_at k cands p = Some (Some x)).
+Proof. reflexivity. Qed.
+Print Assumptions nanfree_def.
+
+Lemma score_total_def : forall k cands b,
+  score_total k cands b =
+  qsum (map (fun p => match sc_at k cands p with Some (Some x) => x | _ => 0%Q end) b).
+Proof. reflexivity. Qed.
+Print Assumptions score_total_def.
+
+(* `big` exceeds min(n, m) * (hi - lo) for some lo <= 0 <= hi bracketing every
+   finite line score of the edge *)
+Lemma big_dominates_def : forall big k cands,
+  big_dominates big k cands =
+  (exists lo hi : Q, (lo <= 0)%Q /\ (0 <= hi)%Q /\
+     (forall c x, In c (edge_cands k cands) -> c_score c = Some x -> (lo <= x)%Q /\ (x <= hi)%Q) /\
+     (inject_Z (Z.of_nat (Nat.min (length (edge_srcs k cands)) (length (edge_dsts k cands)))) * (hi - lo) < big)%Q).
+Proof. reflexivity. Qed.
+Print Assumptions big_dominates_def.
+
+(* the statement of clause 7 for the code in /repo: when every (src, dst) pair of
+   the edge has a candidate and `big` dominates the score range, the matches b
+   returned for edge k are a NaN-free one-to-one set; every match carries the
+   finite line score of its candidate; no NaN-free one-to-one set has more pairs
+   (maximum cardinality); none of the same size has a larger total line score *)
+Theorem c08_matches_optimal_fixed : forall lsa big k cands ms,
+  lsa_contract lsa -> match_edge lsa true big k cands = Ok ms ->
+  complete_cands k cands -> big_dominates big k cands ->
+  let n := length (edge_srcs k cands) in
+  let m := length (edge_dsts k cands) in
+  exists b, ms = map (fun p => (k, fst p, snd p, Some (pscore k cands p))) b /\
+    partial_asg n m b /\ nanfree k cands b /\
+    (forall mt, In mt ms -> exists x, m_score mt = Some x /\
+                                      sc_at k cands (m_src mt, m_dst mt) = Some (Some x)) /\
+    (forall b', partial_asg n m b' -> nanfree k cands b' -> length b' <= length b) /\
+    (forall b', partial_asg n m b' -> nanfree k cands b' -> length b' = length b ->
+                (score_total k cands b' <= score_total k cands b)%Q).
+Proof. exact match_edge_optimal_fixed. Qed.
+Print Assumptions c08_matches_optimal_fixed.
+
+(* the same for every edge of a predict sample; the two hypotheses become: the
+   score list is long enough (always: score_paf_lines scores every candidate) and
+   the boolean `big_dominatesb`, which the harness evaluates (Coq and a Python
+   twin) on EVERY generated edge and requires to be true *)
+Theorem c08_matches_optimal_fixed_sample :
+  forall P lsa big edges (peaks : list (nat * P)) scores ms k,
+  lsa_contract lsa -> length (candidates edges (map fst peaks)) <= length scores ->
+  let cands := sample_cands edges peaks scores in
+  match_sample lsa true big (length edges) cands = Ok ms -> k < length edges ->
+  big_dominatesb big k cands = true ->
+  let n := length (edge_srcs k cands) in
+  let m := length (edge_dsts k cands) in
+  exists b, filter (on_edge k) ms = map (fun p => (k, fst p, snd p, Some (pscore k cands p))) b /\
+    partial_asg n m b /\ nanfree k cands b /\
+    (forall mt, In mt (filter (on_edge k) ms) ->
+       exists x, m_score mt = Some x /\ sc_at k cands (m_src mt, m_dst mt) = Some (Some x)) /\
+    (forall b', partial_asg n m b' -> nanfree k cands b' -> length b' <= length b) /\
+    (forall b', partial_asg n m b' -> nanfree k cands b' -> length b' = length b ->
+                (score_total k cands b' <= score_total k cands b)%Q).
+Proof. exact @match_sample_optimal_fixed. Qed.
+Print Assumptions c08_matches_optimal_fixed_sample.
+
+Theorem c08_sample_cands_complete : forall P edges (peaks : list (nat * P)) scores k,
+  length (candidates edges (map fst peaks)) <= length scores ->
+  complete_cands k (sample_cands edges peaks scores).
+Proof. exact @sample_cands_complete. Qed.
+Print Assumptions c08_sample_cands_complete.
+
+Theorem c08_big_dominatesb_sound : forall big k cands,
+  big_dominatesb big k cands = true -> big_dominates big k cands.
+Proof. exact big_dominatesb_sound. Qed.
+Print Assumptions c08_big_dominatesb_sound.
+
+(* transfer: on an edge without NaN scores the current tree builds the same cost
+   matrix and returns the same matches as the pinned tree, so c08_matches_optimal
+   (full-size assignment, minimal total cost) describes the current tree there *)
+Theorem c08_fixed_is_unfixed_without_nan : forall lsa big k cands,
+  (forall c, In c (edge_cands k cands) -> c_score c <> None) ->
+  edge_matrix true big k cands = edge_matrix false big k cands /\
+  match_edge lsa true big k cands = match_edge lsa false big k cands.
+Proof. exact match_edge_fixed_eq_no_nan. Qed.
+Print Assumptions c08_fixed_is_unfixed_without_nan.
+
+(* non-vacuity on the evaluated variant (1e6): a NaN pair is dropped, the finite
+   pairs are matched, the domination hypothesis holds *)
+Example ex_fixed_nan_dropped :
+  match_edge lsa_bf true 1000000 0 [(0,0,2,None);(0,0,3,Some (1#2)%Q);(0,1,2,Some (1#4)%Q);(0,1,3,None)]
+  = Ok [(0,0,1,Some (1#2)%Q);(0,1,0,Some (1#4)%Q)] /\
+  big_dominatesb 1000000 0 [(0,0,2,None);(0,0,3,Some (1#2)%Q);(0,1,2,Some (1#4)%Q);(0,1,3,None)] = true.
+Proof. exact ex_fixed_nan_dropped_value. Qed.
+
+(* the domination hypothesis is necessary: a placeholder below the score range
+   loses both finite matches ... *)
+Example ex_small_big_loses_matches :
+  match_edge lsa_bf true (-10) 0 [(0,0,2,None);(0,0,3,Some (1#2)%Q);(0,1,2,Some (1#2)%Q);(0,1,3,None)] = Ok [] /\
+  big_dominatesb (-10) 0 [(0,0,2,None);(0,0,3,Some (1#2)%Q);(0,1,2,Some (1#2)%Q);(0,1,3,None)] = false.
+Proof. exact ex_small_big_loses_value. Qed.
+
+(* ... and so does the code's 1e6 against a line score below -1e6 (needs PAF
+   values of that size; the stated domain bounds line scores so that 1e6 dominates) *)
+Example ex_1e6_not_dominating :
+  match_edge lsa_bf true 1000000 0 [(0,0,1,None);(0,0,2,Some (-2000000)%Q)] = Ok [] /\
+  big_dominatesb 1000000 0 [(0,0,1,None);(0,0,2,Some (-2000000)%Q)] = false.
+Proof. exact ex_1e6_not_dominating_value. Qed.
+
+(* --- matrix ranks are peak ranks (review finding 3) ------------------------ *)
+
+(* for edge k = (u, v) of a predict sample: the rows of the cost matrix are the
+   peaks of node u in input order (`node_inds u` = their global positions), the
+   columns those of node v; cell (i, j) holds minus the line score listed for THE
+   candidate (k, i-th peak of u, j-th peak of v); and rank i in `node_inds j` is
+   rank i in `peaks_of_node j` — the list c08_partition reads the payload from.
+   So a match (k, i, j, x) joins the i-th input peak of node type u and the j-th of
+   node type v, and x is that candidate's line score. *)
+Theorem c08_ranks_are_peak_ranks :
+  forall P edges (peaks : list (nat * P)) scores k u v,
+  nth_error edges k = Some (u, v) -> length (candidates edges (map fst peaks)) <= length scores ->
+  let cands := sample_cands edges peaks scores in
+  let chans := map fst peaks in
+  (node_inds v chans <> [] -> edge_srcs k cands = node_inds u chans) /\
+  (node_inds u chans <> [] -> edge_dsts k cands = node_inds v chans) /\
+  (node_inds u chans = [] \/ node_inds v chans = [] -> edge_cands k cands = []) /\
+  (forall i j s d, nth_error (node_inds u chans) i = Some s -> nth_error (node_inds v chans) j = Some d ->
+     exists x, In (k, s, d, x) cands /\
+               find_score s d (edge_cands k cands) = Some x /\
+               forall fx big, entry (edge_matrix fx big k cands) i j = cost_entry fx big (Some x)) /\
+  (forall j i pl, nth_error (peaks_of_node j peaks) i = Some pl <->
+                  exists g, nth_error (node_inds j chans) i = Some g /\ nth_error peaks g = Some (j, pl)).
+Proof. exact @ranks_are_peak_ranks. Qed.
+Print Assumptions c08_ranks_are_peak_ranks.
 
 (* --- (g) totality --------------------------------------------------------- *)
 
@@ -292,8 +480,8 @@ Theorem c08_only_error_is_infeasible :
 Proof. exact @predict_err. Qed.
 Print Assumptions c08_only_error_is_infeasible.
 
-(* F3 — the full statement "grouping finishes without raising" is FALSE of the
-   code as it is: one peak of node 0 and one of node 1 on the same pixel give
+(* F3 (fixed in /repo by f3ef4e3) — the full statement "grouping finishes without
+   raising" is FALSE of the PINNED tree (fixed_F3 = false): one peak of node 0 and one of node 1 on the same pixel give
    the score table [NaN]; every oracle meeting the contract fails on [[+inf]] *)
 Theorem c08_total_refuted :
   exists (n_nodes : nat) (edges : list edge) (r : nat) (m : mip) (mls : Q)
@@ -305,7 +493,7 @@ Theorem c08_total_refuted :
 Proof. exact predict_total_refuted. Qed.
 Print Assumptions c08_total_refuted.
 
-(* the strongest true statement for the code as it is; the extra hypothesis is
+(* the strongest true statement for the pinned tree (before f3ef4e3); the extra hypothesis is
    exactly the complement of selector nan_scores_make_edge_assignment_infeasible:
    every edge's cost matrix admits a one-to-one assignment of size min(n,m) that
    avoids the +inf (NaN) entries *)
@@ -317,8 +505,9 @@ Theorem c08_total_partial :
 Proof. exact @predict_total_partial. Qed.
 Print Assumptions c08_total_partial.
 
-(* with the proposed repair the full statement holds: for every score table that
-   gives each candidate a score (NaN allowed) grouping finishes without raising *)
+(* CURRENT tree (fix f3ef4e3 = proposed_fixes/C08_F3.diff): the full statement
+   holds — for every score table that gives each candidate a score (NaN allowed)
+   grouping finishes without raising *)
 Theorem c08_total_fixed :
   forall P lsa big n_nodes edges r m mls (peaks : list (nat * P)) scores,
   lsa_contract lsa -> arborescence edges r -> edges_in_range n_nodes edges ->
@@ -336,7 +525,7 @@ Theorem c08_selector_F3_complement : forall n cands big,
 Proof. exact selector_F3_false. Qed.
 Print Assumptions c08_selector_F3_complement.
 
-(* ... in which case the code as it is returns (c08_total_partial, boolean form) ... *)
+(* ... in which case the pinned tree returns (c08_total_partial, boolean form) ... *)
 Theorem c08_total_outside_selector :
   forall P lsa big n_nodes edges r m mls (peaks : list (nat * P)) scores,
   lsa_contract lsa -> arborescence edges r -> edges_in_range n_nodes edges ->
@@ -345,7 +534,7 @@ Theorem c08_total_outside_selector :
 Proof. exact @predict_total_selector. Qed.
 Print Assumptions c08_total_outside_selector.
 
-(* ... and when it is true the code as it is fails whatever the oracle answers *)
+(* ... and when it is true the pinned tree fails whatever the oracle answers *)
 Theorem c08_fails_inside_selector :
   forall P lsa big n_nodes edges r m mls (peaks : list (nat * P)) scores,
   lsa_contract lsa -> arborescence edges r ->
@@ -378,3 +567,31 @@ Example ex_predict_two_animals :
          [Some (11%Q, 1%Q, (1#2)%Q); Some (12%Q, 2%Q, (1#2)%Q); Some (13%Q, 3%Q, (1#2)%Q)]],
         [(5#8) + ((7#8) + 0); (1#2) + ((3#4) + 0)]%Q).
 Proof. exact ex_predict_value. Qed.
+
+(* the same skeleton and peaks on the EVALUATED variant (current tree, big = 1e6):
+   the first peak of node 1 has only NaN scores towards node 2 — the pinned tree
+   raises, the current tree drops the NaN pair and groups the rest *)
+Example ex_predict_fixed_nan_row :
+  predict_sample lsa_bf true 1000000 3 [(1, 2); (0, 1)] (MipInt 2) (1#4)%Q ex_peaks ex_scores_nan_row
+  = Ok ([[Some (1%Q, 1%Q, 1%Q); Some (2%Q, 2%Q, 1%Q); None];
+         [Some (11%Q, 1%Q, (1#2)%Q); Some (12%Q, 2%Q, (1#2)%Q); Some (3%Q, 3%Q, 1%Q)]],
+        [(5#8)%Q; (10#8)%Q]) /\
+  predict_sample lsa_bf false 1000000 3 [(1, 2); (0, 1)] (MipInt 2) (1#4)%Q ex_peaks ex_scores_nan_row
+  = Err EInfeasible.
+Proof. exact ex_predict_fixed_value. Qed.
+
+(* float min_instance_peaks: 0.6 (= 5404319552844595 / 2^53) with 5 nodes and 0.3
+   with 10 nodes — the binary64 product rounds up to 3.0, the exact product
+   truncates to 2; dyadic fractions and ints are unaffected *)
+Example ex_threshold_06_5 :
+  threshold (MipFloat (5404319552844595 # 9007199254740992)) 5 = Some 3%Z /\
+  Qfloor ((5404319552844595 # 9007199254740992) * inject_Z 5) = 2%Z.
+Proof. exact ex_threshold_06_5_value. Qed.
+Example ex_threshold_03_10 :
+  threshold (MipFloat (5404319552844595 # 18014398509481984)) 10 = Some 3%Z /\
+  Qfloor ((5404319552844595 # 18014398509481984) * inject_Z 10) = 2%Z.
+Proof. exact ex_threshold_03_10_value. Qed.
+Example ex_threshold_dyadic :
+  threshold (MipFloat (1#4)) 6 = Some 1%Z /\ threshold (MipFloat 1) 5 = Some 5%Z /\
+  threshold (MipFloat 0) 5 = None /\ threshold (MipInt 2) 5 = Some 2%Z.
+Proof. exact ex_threshold_dyadic_value. Qed.
